@@ -8,10 +8,11 @@ import (
 	"strings"
 )
 
+// src renders a node as source text with whitespace normalised to single spaces.
 func src(n ast.Node) string {
 	var sb strings.Builder
 	_ = printer.Fprint(&sb, fset, n)
-	return sb.String()
+	return strings.Join(strings.Fields(sb.String()), " ")
 }
 
 func init() {
